@@ -121,47 +121,47 @@ Definition sum_f64 (avx : bool) (values : list Q) : Q :=
   if avx then sum_f64_avx2 values else sum_f64_scalar values.
 
 (* ---------------------------------------------------------------- simd::min_f64 / max_f64 *)
-(* accumulators start at +INFINITY (min) / -INFINITY (max): [None] *)
-Definition omin_lt (v : Q) (m : option Q) : option Q :=      (* if v < min { min = v } *)
-  match m with None => Some v | Some x => if qltb v x then Some v else m end.
-Definition omax_gt (v : Q) (m : option Q) : option Q :=      (* if v > max { max = v } *)
-  match m with None => Some v | Some x => if qltb x v then Some v else m end.
-(* _mm256_min_pd(a, b) per lane = a < b ? a : b   (second operand when not less) *)
-Definition vmin (a : option Q) (b : Q) : option Q :=
-  match a with None => Some b | Some x => if qltb x b then Some x else Some b end.
-Definition vmax (a : option Q) (b : Q) : option Q :=
-  match a with None => Some b | Some x => if qltb b x then Some x else Some b end.
-(* f64::min / f64::max on lane results (either may still be the infinity) *)
-Definition fmin (a b : option Q) : option Q :=
-  match a, b with
-  | None, _ => b
-  | _, None => a
-  | Some x, Some y => if qltb y x then Some y else Some x
-  end.
-Definition fmax (a b : option Q) : option Q :=
-  match a, b with
-  | None, _ => b
-  | _, None => a
-  | Some x, Some y => if qltb x y then Some y else Some x
-  end.
+(* min and max are the same code with the comparison flipped; the functions are written once over the strict
+   comparison [lt] ("strictly better than") and instantiated with  a <_min b := a < b  and  a <_max b := a > b.
+   Accumulators start at +INFINITY (min) / -INFINITY (max): [None]. *)
+Section MinMax.
+  Variable lt : Q -> Q -> bool.
+  (* scalar loop body:  if v < min { min = v }   /   if v > max { max = v } *)
+  Definition acc_step (v : Q) (m : option Q) : option Q :=
+    match m with None => Some v | Some x => if lt v x then Some v else m end.
+  (* _mm256_min_pd(a, b) per lane = a < b ? a : b ;  _mm256_max_pd(a, b) = a > b ? a : b  (second operand otherwise) *)
+  Definition vec_step (a : option Q) (b : Q) : option Q :=
+    match a with None => Some b | Some x => if lt x b then Some x else Some b end.
+  (* f64::min / f64::max on two lane results (either may still be the infinity) *)
+  Definition f_comb (a b : option Q) : option Q :=
+    match a, b with
+    | None, _ => b
+    | _, None => a
+    | Some x, Some y => if lt y x then Some y else Some x
+    end.
+  Definition olanes := (option Q * option Q * option Q * option Q)%type.
+  (* the `for i in 0..chunks` loop: four lanes over len/4 full chunks; returns the lanes and the remainder *)
+  Fixpoint mm_chunks (l : list Q) (acc : olanes) : olanes * list Q :=
+    match l with
+    | a :: b :: c :: d :: r =>
+        let '(m0, m1, m2, m3) := acc in
+        mm_chunks r (vec_step m0 a, vec_step m1 b, vec_step m2 c, vec_step m3 d)
+    | rem => (acc, rem)
+    end.
+  (* min_f64_scalar / max_f64_scalar *)
+  Definition mm_scalar (values : list Q) : option Q := fold_left (fun m v => acc_step v m) values None.
+  (* min_f64_avx2 / max_f64_avx2: horizontal combination of the lanes, then the remainder with the scalar body *)
+  Definition mm_avx2 (values : list Q) : option Q :=
+    let '((m0, m1, m2, m3), rem) := mm_chunks values (None, None, None, None) in
+    fold_left (fun m v => acc_step v m) rem (f_comb (f_comb (f_comb m0 m1) m2) m3).
+End MinMax.
 
-Definition olanes := (option Q * option Q * option Q * option Q)%type.
-Fixpoint mm_chunks (op : option Q -> Q -> option Q) (l : list Q) (acc : olanes) : olanes * list Q :=
-  match l with
-  | a :: b :: c :: d :: r =>
-      let '(m0, m1, m2, m3) := acc in
-      mm_chunks op r (op m0 a, op m1 b, op m2 c, op m3 d)
-  | rem => (acc, rem)
-  end.
-
-Definition min_f64_scalar (values : list Q) : option Q := fold_left (fun m v => omin_lt v m) values None.
-Definition max_f64_scalar (values : list Q) : option Q := fold_left (fun m v => omax_gt v m) values None.
-Definition min_f64_avx2 (values : list Q) : option Q :=
-  let '((m0, m1, m2, m3), rem) := mm_chunks vmin values (None, None, None, None) in
-  fold_left (fun m v => omin_lt v m) rem (fmin (fmin (fmin m0 m1) m2) m3).
-Definition max_f64_avx2 (values : list Q) : option Q :=
-  let '((m0, m1, m2, m3), rem) := mm_chunks vmax values (None, None, None, None) in
-  fold_left (fun m v => omax_gt v m) rem (fmax (fmax (fmax m0 m1) m2) m3).
+Definition lt_min (a b : Q) : bool := qltb a b.      (* a < b *)
+Definition lt_max (a b : Q) : bool := qltb b a.      (* a > b *)
+Definition min_f64_scalar := mm_scalar lt_min.
+Definition max_f64_scalar := mm_scalar lt_max.
+Definition min_f64_avx2 := mm_avx2 lt_min.
+Definition max_f64_avx2 := mm_avx2 lt_max.
 
 (* results of the aggregate functions (Value) *)
 Inductive res :=
